@@ -21,7 +21,7 @@ from wbgen import a1
 
 NAME = 'clocksim'
 # probes that count as injected disturbances (reported under faults_fired in the evidence)
-FAULT_PROBES = ('clock_stepped_backward', 'tz_changed', 'dst_transition_crossed', 'midnight_crossed_inside_one_evaluation', 'midnight_crossed_between_two_queries', 'month_length_class_changed', 'override_between_two_instants')
+FAULT_PROBES = ('env_calendar_firstweekday_changed', 'env_decimal_context_changed', 'env_warnings_filter_changed', 'clock_stepped_backward', 'tz_changed', 'dst_transition_crossed', 'midnight_crossed_inside_one_evaluation', 'midnight_crossed_between_two_queries', 'month_length_class_changed', 'override_between_two_instants')
 NEEDS_REF = False
 WB_PATH = '/simfs/clock.xlsx'
 EPOCH = datetime.datetime(1970, 1, 1)
@@ -159,7 +159,7 @@ SAFE_TEXT = ['x', 'ab', 'abc', 'Zed', 'k9', 'a', 'zz', 'hello', 'TRUE', 'é✓',
 DATELIKE_TEXT = ['5', '05', '29', '30', '31', '1-2', '3/4', '10:30', 'may', 'jan 5', '2024-01-31', '12', '31.0', 'mon']
 
 
-def _matrix_workbook(r, datelike):
+def _matrix_workbook(r, datelike, pad=0):
     rows = r.randint(4, 8)
     texts = SAFE_TEXT + (DATELIKE_TEXT * 2 if datelike else [])
     cells = {}
@@ -184,7 +184,7 @@ def _matrix_workbook(r, datelike):
             cells[a1(4, rr)] = enc_value(wbgen.stable_datetime(r))
         elif k < 0.7:
             cells[a1(4, rr)] = r.randint(1, 31)
-    last = rows
+    last = rows + pad        # ranges may run past the used area ("A1:A1000 over a dozen rows"); rows appended later land there
 
     def rng_(col):
         return '%s1:%s%d' % (col, col, last)
@@ -224,6 +224,8 @@ def _matrix_workbook(r, datelike):
 
     formulas = []
     n = r.randint(6, 24)
+    if pad:
+        n = min(n, rows)     # keep the sheet's used box as tall as the table, so the padded tail of a range lies OUTSIDE it
     for i in range(n):
         fn = r.choice(['SUMIF', 'SUMIFS', 'COUNTIFS', 'COUNTIFS', 'AVERAGEIFS'])
         col = r.choice('BBDDE')
@@ -256,7 +258,12 @@ def _gen_invariance(seed, cfg):
     r = core.rng(seed, 'clocksim', 'invariance')
     swarm = {'datelike': r.random() < 0.5, 'auto_advance': r.random() < 0.3, 'tz_changes': r.random() < 0.6}
     swarm.update(cfg.get('swarm', {}))
-    spec, n = _matrix_workbook(r, swarm['datelike'])
+    rp = core.rng(seed, 'clocksim', 'invariance', 'pad')
+    pad = rp.choice([0, 0, 0, 1, 2, 4])
+    if 'pad' in cfg.get('swarm', {}):
+        pad = cfg['swarm']['pad']
+    swarm['pad'] = pad
+    spec, n = _matrix_workbook(r, swarm['datelike'], pad)
     k = r.randint(6, 20)
     # rule zones (own stream): on a third of the runs some instants lie in a POSIX rule zone with DST, and the date
     # column holds date-times inside that zone's spring-forward gap / fall-back overlap next to their neighbours one
@@ -290,7 +297,7 @@ def _gen_invariance(seed, cfg):
             f_ = rz.choice(['=COUNTIFS(%s,E%d)' % (rng_e, rr_ + 1), '=SUMIFS(C1:C%d,%s,E%d)' % (last_, rng_e, rr_ + 1),
                             '=SUMIF(%s,E%d,C1:C%d)' % (rng_e, rr_ + 1, last_), '=AVERAGEIFS(C1:C%d,%s,E%d)' % (last_, rng_e, rr_ + 1),
                             '=COUNTIFS(%s,">"&E%d)' % (rng_e, rr_ + 1), '=COUNTIFS(%s,"<="&E%d)' % (rng_e, rr_ + 1)])
-            cells_[a1(0, n + j_)] = f_
+            cells_[a1(7, j_)] = f_
     # criteria built from TODAY() (own stream): they legitimately move with the date, so they are exempt from the
     # time-invariance clause - but at one frozen instant a used executor must still answer like a pristine one,
     # which is where a criterion that was bound on an earlier day shows
@@ -330,7 +337,7 @@ def _gen_invariance(seed, cfg):
                     if single_refs and rh.random() < 0.6:
                         cc, rr = wbgen.parse_a1(rh.choice(single_refs))       # a cell some criterion is built from
                     else:
-                        cc, rr = rh.randint(1, 4), rh.randrange(rows)
+                        cc, rr = rh.randint(1, 4), rh.randrange(rows + pad)      # incl. rows appended below the table
                     v = rh.choice([rh.randint(0, 31), rh.choice([0, 1, 5, 29, 30, 31, 2.5]), rh.choice(pool_txt), rh.choice(pool_txt)])
                     sets.append({'tg': [cc, rr], 'v': v})
                 ent['set'] = sets
@@ -342,7 +349,8 @@ def _gen_invariance(seed, cfg):
         idx = [i for i in range(1, len(timeline)) if rz.random() < 0.5] or [len(timeline) - 1]
         for i in idx:
             timeline[i]['tz'] = rule_zone
-    return {'engine': NAME, 'mode': 'invariance', 'seed': seed, 'swarm': swarm, 'spec': spec, 'n_formulas': n, 'timeline': timeline}
+    return {'engine': NAME, 'mode': 'invariance', 'seed': seed, 'swarm': swarm, 'spec': spec, 'n_formulas': n, 'timeline': timeline,
+            'env': core.gen_env(seed)}
 
 
 def _has_today(f):
@@ -442,6 +450,8 @@ def _exec_invariance(plan):
                 cc, rr = c['tg']
                 if (cc, rr) in omap:
                     probe('criteria_cell_overridden_again')
+                if rr >= wbgen.used_range(spec['sheets'][0])[1]:
+                    probe('override_below_the_table_inside_a_declared_range')
                 omap[(cc, rr)] = c['v']
                 batch.append(Cell(0, cc, rr, dec_value(c['v'])))
             try:
@@ -659,7 +669,8 @@ def _gen_calendar(seed, cfg):
             now = min(max(now, center - span, lo), center + span, hi)
             ev.append({'op': 'jump', 'ns': now})
     ev.append({'op': 'query'})
-    return {'engine': NAME, 'mode': 'calendar', 'seed': seed, 'swarm': swarm, 'spec': spec, 'names': names, 'events': ev}
+    return {'engine': NAME, 'mode': 'calendar', 'seed': seed, 'swarm': swarm, 'spec': spec, 'names': names, 'events': ev,
+            'env': core.gen_env(seed)}
 
 
 # independent calendar arithmetic -----------------------------------------------------------------
@@ -922,7 +933,10 @@ def run(req, ctx):
     import simclock
     simclock.preflight()
     plan = req.get('plan') or gen_plan(req['seed'], req.get('cfg', {}))
+    env_fired = core.apply_env(plan.get('env'))          # process-global stdlib settings of an embedding application
     res = _exec_invariance(plan) if plan['mode'] == 'invariance' else _exec_calendar(plan)
+    for k_, v_ in env_fired.items():
+        res.setdefault('probes', {})[k_] = v_
     if req.get('want_plan') or res['mismatches']:
         res['plan'] = plan
     if not req.get('want_log'):
@@ -943,6 +957,10 @@ def describe(plan, m):
 
 
 def shrink(plan):
+    if plan.get('env'):
+        p = copy.deepcopy(plan)
+        p['env'] = {}
+        yield p
     if plan['mode'] == 'invariance':
         tl = plan['timeline']
         # keep only two instants
